@@ -7,7 +7,8 @@ handed to conjoin_implied is difference_iter itself or difference_iter filtered 
 is exactly `literal.label() != v` for the decided v.  Any other predicate (an ordering test, a
 polarity test) drops implied literals, and the branch then admits assignments the CNF refutes.
 """
-from . import mir
+from . import mir, tdctx
+from .ts import count_until
 from .base import inst, OK, VIOLATION, UNDECIDED, strip
 from .facts import CheckerError
 from .mir import show
@@ -15,26 +16,55 @@ from .mir import show
 
 def run(prog):
     out = []
-    n = 0
-    for fn in prog.find(name="topdown_h", unit="rsdd-lib"):
-        te = fn.terms
-        decides = [cs for cs in te.calls if cs.callee.name == "decide"]
-        k = 0
+    top, ctxs = tdctx.contexts(prog)
+    if len(ctxs) < 2:
+        out.append(inst("TD", "%s:implied-set" % top.npath, UNDECIDED, top, None,
+                        "expected one decide per polarity in topdown_h or in a helper it calls, found %d" % len(ctxs)))
+    for ctx in ctxs:
+        fn, te = ctx.fn, ctx.fn.terms
+        decides = [cs for cs in te.calls if tdctx.is_decide(cs)]
+        sites = []
         for cs in te.calls:
             if cs.callee.name != "conjoin_implied":
                 continue
-            k += 1
-            n += 1
-            key = "%s:implied-set#%d" % (fn.npath, k)
-            lits = strip(cs.args[1])
-            # the decision that dominates this site
             dom = [d for d in decides if fn.cfg.dominates(d.bb, cs.bb)]
             # the closest one: it is dominated by all the others
             dom = [d for d in dom if all(fn.cfg.dominates(e.bb, d.bb) for e in dom)]
-            if len(dom) != 1:
-                out.append(inst("TD", key, UNDECIDED, fn, cs.line, "no unique dominating decide"))
-                continue
-            dl = strip(dom[0].args[1])
+            if len(dom) == 1 and dom[0] is ctx.cs:
+                sites.append(cs)
+        pol = ctx.pol
+        # every non-UNSAT outcome of the decide reaches the pop through a conjoin_implied site
+        site_bbs = {cs.bb for cs in sites}
+        pop_bbs = {c.bb for c in te.calls if c.callee.name == "pop" and "SATSolver" in c.callee.key()}
+        sw = [d for d, (c, vm) in te.switch_term.items() if c == ("discr", ctx.cs.term)]
+        key = "%s:implied-set(%s):every-arm" % (top.npath, pol)
+        if len(sw) != 1:
+            out.append(inst("TD", key, UNDECIDED, fn, ctx.cs.line, "result of decide is not matched directly"))
+        else:
+            d = sw[0]
+            vm = te.switch_term[d][1] or {}
+            t = fn.blocks[d]["term"]
+            edges = {}
+            for v, b in t["targets"]:
+                edges[vm.get(v, v)] = b
+            for name in vm.values():
+                if name not in edges:
+                    edges[name] = t["otherwise"]
+            bad = []
+            for name, b in sorted(edges.items()):
+                if name == "UNSAT":
+                    continue
+                r = count_until(fn, b, lambda x: x in site_bbs, lambda x: x in pop_bbs, count_start=True)
+                if r is not None and r[0] < 1:
+                    bad.append(name)
+            out.append(inst("TD", key, VIOLATION if bad else OK, fn, ctx.cs.line,
+                            ("after decide(%s) the %s outcome reaches pop() without conjoining the implied literals"
+                             % (pol, "/".join(str(b) for b in bad))) if bad else
+                            "SAT and Unknown outcomes conjoin the implied literals before the pop"))
+        for k, cs in enumerate(sites, 1):
+            key = "%s:implied-set(%s)#%d" % (top.npath, pol, k)
+            lits = strip(cs.args[1])
+            dl = strip(ctx.cs.args[1])
             dvar = strip(dl[2][0]) if mir.is_call(dl, "new") else None
             if mir.is_call(lits, "difference_iter"):
                 out.append(inst("TD", key, OK, fn, cs.line, "all of difference_iter is conjoined"))
@@ -64,15 +94,23 @@ def run(prog):
                                 "every other literal in difference_iter is entailed by the decision and must be conjoined"
                                 % show(r)[:80]))
                 continue
-            if dvar is None or len(caps) != 1 or caps[0] != dvar:
+            same = len(caps) == 1 and ((dvar is not None and caps[0] == dvar) or
+                                       (mir.is_call(caps[0], "label") and _deref(caps[0][2][0]) == _deref(dl)))
+            if not same:
                 out.append(inst("TD", key, VIOLATION, fn, cs.line,
                                 "the filter drops the variable %s but the decision was on %s"
-                                % (show(caps[0])[:50] if caps else "?", show(dvar)[:50] if dvar else "?")))
+                                % (show(caps[0])[:50] if caps else "?", show(dvar if dvar is not None else dl)[:50])))
                 continue
-            out.append(inst("TD", key, OK, fn, cs.line, "difference_iter minus the decision variable %s" % show(dvar)[:50]))
-    if n < 4:
-        raise CheckerError("TD: only %d conjoin_implied sites found in topdown_h (expected 4)" % n)
+            out.append(inst("TD", key, OK, fn, cs.line, "difference_iter minus the decision variable %s"
+                            % show(dvar if dvar is not None else caps[0])[:50]))
     return out
+
+
+def _deref(t):
+    t = strip(t)
+    while isinstance(t, tuple) and t and t[0] in ("deref", "ref"):
+        t = strip(t[1])
+    return t
 
 
 def _k(t):
